@@ -8,6 +8,8 @@ import PercevalModel.Lemmas.FockComp
 import PercevalModel.Lemmas.C02Mps
 import PercevalModel.Lemmas.C02Step
 import PercevalModel.Lemmas.C02Perm
+import PercevalModel.Lemmas.C02Sess
+import PercevalModel.Lemmas.C02SessK
 import Mathlib.Algebra.Star.Basic
 import Mathlib.Tactic.FieldSimp
 
@@ -559,6 +561,164 @@ theorem evolve_normalised [Field R] [StarRing R] {m : ℕ} (U : Matrix (Fin m) (
 
 /-- non-vacuity of `evolveProbs_sum_one`: a mask that keeps part of the mass -/
 example : keptMass exU [1, 1] [[some 1, none]] ≠ 0 := by decide +kernel
+
+/-! ### the configuration glue of `AStrongSimulationBackend` as a state machine (`Model/C02Sess.lean`)
+
+`set_circuit`, `set_input_state`, `set_mask(masks, n)`, `clear_mask`, `_init_mask` and the iterator cache
+keyed by the photon number, as written.  The bulk queries list the states of `_get_iterator`; the theorems
+say that after ANY exception-free history the list is the one the current configuration alone prescribes:
+the cache is never stale and the mask object is never the one of an earlier input. -/
+
+open Sess in
+/-- **bulk queries do not depend on the history**: whatever the object served before, a bulk query that
+does not raise lists exactly `spec` of the current configuration — the `(m, n)` states of the current input
+kept by the current mask strings instantiated for `_mask_n or n` photons; `all_prob(s0)` answers for `s0` -/
+theorem session_bulk_history_independent {st st' : St} {so : Option (List ℕ)}
+    {out : Option (List (List ℕ))} (hr : Reachable st) (h : step st (.bulk so) = .ok (st', out)) :
+    ∃ s, st'.input = some s ∧ out = some (spec st' s) ∧ (∀ s0, so = some s0 → s = s0) ∧
+      st'.circ = some s.length :=
+  let ⟨hi, s, h1, h2, h3⟩ := bulk_sound (reachable_inv hr) h
+  ⟨s, h1, h2, h3, hi.a s h1⟩
+
+open Sess in
+/-- two objects with different histories but the same mask configuration give the same list for the same
+input -/
+theorem session_two_histories_agree {st₁ st₁' st₂ st₂' : St} {s : List ℕ}
+    {o₁ o₂ : Option (List (List ℕ))} (h₁ : Reachable st₁) (h₂ : Reachable st₂)
+    (q₁ : step st₁ (.bulk (some s)) = .ok (st₁', o₁)) (q₂ : step st₂ (.bulk (some s)) = .ok (st₂', o₂))
+    (hm : st₁'.masksStr = st₂'.masksStr) (hn : st₁'.maskN = st₂'.maskN) : o₁ = o₂ := by
+  obtain ⟨s₁, _, e₁, g₁, _⟩ := session_bulk_history_independent h₁ q₁
+  obtain ⟨s₂, _, e₂, g₂, _⟩ := session_bulk_history_independent h₂ q₂
+  have a₁ := g₁ s rfl
+  have a₂ := g₂ s rfl
+  subst a₁; subst a₂
+  rw [e₁, e₂]
+  simp only [spec, hm, hn]
+
+open Sess in
+/-- without a mask the list is the whole `(m, n)` space in enumeration order -/
+theorem session_spec_unmasked (st : St) (s : List ℕ) (h : st.masksStr = none) :
+    spec st s = allStates s.length s.sum := by
+  simp [spec, h, arrayStates]
+
+open Sess in
+/-- with masks given without a photon number (or with 0, which python takes for "none", or with the
+photon number of the input) the list is `bulkStates`: the one the theorems above on `all_prob`,
+`prob_distribution` and `evolve` are about -/
+theorem session_spec_masked (st : St) (s : List ℕ) (ms : List Mask) (h : st.masksStr = some ms)
+    (hn : st.maskN = none ∨ st.maskN = some 0 ∨ st.maskN = some s.sum) :
+    spec st s = bulkStates s.length s ms := by
+  have he : effN st.maskN s.sum = s.sum := by
+    rcases hn with hn | hn | hn <;> rw [hn] <;> simp [effN]
+  simp [spec, h, arrayStates, he, bulkStates]
+
+open Sess in
+/-- a mask instantiated for MORE photons than the input has (`set_mask(masks, n)` with `n` above the
+photon number: the input is part of a larger state) keeps the states whose deficit fits in the slack -/
+theorem session_spec_slack (st : St) (s : List ℕ) (ms : List Mask) (k : ℕ) (h : st.masksStr = some ms)
+    (hk : st.maskN = some k) (h0 : k ≠ 0) (hle : s.sum ≤ k) :
+    spec st s = allStatesMasked s.length s.sum ms (k - s.sum) := by
+  simp [spec, h, hk, arrayStates, effN, h0, Nat.not_lt.2 hle]
+
+open Sess in
+/-- a mask instantiated for FEWER photons than the input has keeps nothing (the code as it is: every bulk
+answer is empty, no exception) -/
+theorem session_spec_too_few (st : St) (s : List ℕ) (ms : List Mask) (k : ℕ) (h : st.masksStr = some ms)
+    (hk : st.maskN = some k) (h0 : k ≠ 0) (hlt : k < s.sum) : spec st s = [] := by
+  simp [spec, h, hk, arrayStates, effN, h0, hlt]
+
+open Sess in
+/-- in every configuration the list is a sub-list of the enumeration of the `(m, n)` space: each kept state
+once, in enumeration order, all of the input's photon number -/
+theorem session_spec_sublist (st : St) (s : List ℕ) :
+    (spec st s).Sublist (allStates s.length s.sum) := by
+  unfold spec arrayStates
+  cases st.masksStr with
+  | none => exact List.Sublist.refl _
+  | some ms =>
+    simp only [Option.map_some]
+    split
+    · exact List.nil_sublist _
+    · exact List.filter_sublist
+
+open Sess in
+/-- non-vacuity: a history with a change of circuit size, a mask set before the input, a second input of
+another photon number served from the same object, and a cleared mask is reachable and answers -/
+example : (runOps {} [.setCircuit 2, .setInput [1, 1], .bulk none, .setCircuit 3,
+    .setMask [[some 1, none, none]] none, .bulk (some [1, 1, 0]), .bulk (some [1, 0, 0]),
+    .clearMask, .bulk none]).map (fun r => match r with | .ok (some l) => l.length | _ => 0)
+    = [0, 0, 3, 0, 0, 2, 1, 0, 3] := by decide +kernel
+
+/-! ### the same for the engine classes that override the glue (`Model/C02SessK.lean`)
+
+A bulk answer is a list of pairs (label, value state): the state a value is filed under and the state whose
+probability / amplitude the value is.  Base class (Naive, MPS): every query iterates `_get_iterator`.  SLOS:
+`_reset` / `_init_mask` / `set_circuit` keeping the deployed paths / `preprocess` bookkeeping of
+`_state_mapping` and `_fsas`; `prob_distribution` and `evolve` zip the iterator with the coefficient vector
+indexed by `_fsas[n]`, `all_prob` returns that vector.  SLAP: `_fock_space` and the `mask.match` filter.
+In each class, after any exception-free history, every answer is the diagonal of `spec`: labels and values
+coincide (no value is filed under another state, nothing is truncated by the `zip`) and the list is the one
+the current configuration prescribes. -/
+
+open Sess in
+theorem session_bulk_history_independent_base {st st' : St} {q : Q} {out : Option Ans}
+    (hr : ReachableB st) (h : stepB st (.bulk q) = .ok (st', out)) :
+    ∃ s, st'.input = some s ∧ out = some (diag (spec st' s)) ∧
+      (∀ s0, q = .allProb (some s0) → s = s0) := by
+  obtain ⟨o, ho, rfl⟩ := stepB_step h
+  cases q with
+  | allProb so =>
+    obtain ⟨s, h1, h2, h3, _⟩ := session_bulk_history_independent (reachableB_reachable hr)
+      (so := so) ho
+    exact ⟨s, h1, by rw [h2]; rfl, by intro s0 hq; cases hq; exact h3 s0 rfl⟩
+  | dist =>
+    obtain ⟨s, h1, h2, _, _⟩ := session_bulk_history_independent (reachableB_reachable hr)
+      (so := none) ho
+    exact ⟨s, h1, by rw [h2]; rfl, by intro s0 hq; cases hq⟩
+  | evolve =>
+    obtain ⟨s, h1, h2, _, _⟩ := session_bulk_history_independent (reachableB_reachable hr)
+      (so := none) ho
+    exact ⟨s, h1, by rw [h2]; rfl, by intro s0 hq; cases hq⟩
+
+open Sess in
+/-- **SLOS**: the iterator cache surviving `set_circuit`, the resets on a change of the mask's photon number,
+and the `_fsas` arrays built with the mask object of an earlier moment never make an answer stale -/
+theorem session_bulk_history_independent_slos {x x' : StS} {q : Q} {out : Option Ans}
+    (hr : ReachableS x) (h : stepS x (.bulk q) = .ok (x', out)) :
+    ∃ s, x'.b.input = some s ∧ out = some (diag (spec x'.b s)) ∧
+      (∀ s0, q = .allProb (some s0) → s = s0) :=
+  (bulkS_sound (reachableS_inv hr) h).2
+
+open Sess in
+/-- **SLAP**: `_fock_space` always is the space of the current input, and filtering it with `mask.match`
+lists the same states as the masked iterator -/
+theorem session_bulk_history_independent_slap {x x' : StP} {q : Q} {out : Option Ans}
+    (hr : ReachableP x) (h : stepP x (.bulk q) = .ok (x', out)) :
+    ∃ s, x'.b.input = some s ∧ out = some (diag (spec x'.b s)) ∧
+      (∀ s0, q = .allProb (some s0) → s = s0) :=
+  (bulkP_sound (reachableP_inv hr) h).2
+
+open Sess in
+/-- SLOS: the input served always has its array: `self._fsas[n]` after `_input_path` cannot raise KeyError -/
+theorem session_slos_fsas_has_key {x x1 : StS} {s : List ℕ} (hr : ReachableS x)
+    (hs : x.b.input = some s) (h : preprocess x s = .ok x1) : (fsaGet x1.fsas s.sum).isSome :=
+  (preprocess_inv (reachableS_inv hr) hs h).2.2
+
+open Sess in
+/-- non-vacuity (SLOS): paths kept across `set_circuit` of the same size, a mask given without photon number
+serving two photon numbers, `all_prob(input)` / `prob_distribution` / `evolve` all answer -/
+example : (runK stepS {} [.setCircuit 3, .setMask [[some 1, none, none]] none, .setInput [1, 1, 0],
+    .bulk .dist, .setCircuit 3, .bulk (.allProb (some [1, 0, 0])), .bulk .evolve, .setCircuit 2,
+    .clearMask, .bulk (.allProb (some [1, 1]))]).map
+      (fun r => match r with | .ok (some l) => l.length | _ => 0)
+    = [0, 0, 0, 2, 0, 1, 1, 0, 0, 3] := by decide +kernel
+
+open Sess in
+/-- non-vacuity (SLAP) -/
+example : (runK stepP {} [.setCircuit 3, .setInput [1, 1, 0], .setMask [[some 1, none, none]] (some 3),
+    .bulk .dist, .bulk (.allProb (some [1, 0, 0])), .bulk .evolve]).map
+      (fun r => match r with | .ok (some l) => l.length | _ => 0)
+    = [0, 0, 0, 5, 3, 3] := by decide +kernel
 
 /-!
 Not proved: nothing of the design's stretch list remains open.  What stays outside any theorem: the
